@@ -6,3 +6,7 @@ import GoFlags.Props.C10
 #print axioms GoFlags.C10.option_keeps_queue
 #print axioms GoFlags.C10.after_terminator_everything_is_positional
 #print axioms GoFlags.C10.queue_is_declaration_order
+#print axioms GoFlags.C10.argAt_modArg_same
+#print axioms GoFlags.C10.argAt_modArg_ne
+#print axioms GoFlags.C10.ArgValid_modArg
+#print axioms GoFlags.C10.words_fill_fields_in_order
